@@ -400,6 +400,17 @@ func c14DynamicFailures(r *rand.Rand, base *model.Schema, tag string) []struct{ 
 			}
 		}
 	}
+	// a scalar the root already has, declared again with a directive (the repeated declaration is skipped by design), in a
+	// document that fails after it
+	scalars := []string{"Time"}
+	for _, t := range base.Types {
+		if t.Kind == model.Scalar {
+			scalars = append(scalars, t.Name)
+		}
+	}
+	sc := scalars[r.Intn(len(scalars))]
+	add("redeclared-scalar-with-directive-then-invalid", fmt.Sprintf("directive @zzFmt%s(p: String) on SCALAR\nscalar %s @zzFmt%s(p: \"iso\")\ntype EmptyZz%s { }", tag, sc, tag, tag))
+	add("redeclared-scalar-with-directive-then-invalid", fmt.Sprintf("scalar %s @deprecated\nunion BadUnionZz%s = Int", sc, tag))
 	if base.Type("OptZz") != nil {
 		add("extend-input-of-directive-argument-then-invalid", fmt.Sprintf("extend input OptZz { b%s: Int = 2 }\ntype EmptyZz%s { }", tag, tag))
 		add("extend-input-of-directive-argument-then-invalid", fmt.Sprintf("extend input OptZz { c%s: [Int] = [1] }\nunion BadUnionZz%s = Int", tag, tag))
@@ -711,6 +722,75 @@ func runC14(c *run.Ctx) {
 		c.Eval(sdl+strings.Join(hist, "\n"), nontriv)
 		if i < 1 {
 			c.Sample(map[string]interface{}{"history": hist})
+		}
+	}
+	c14GhostTypes(c)
+}
+
+type c14GObj struct{}
+
+func (o *c14GObj) Resolve(f *ggql.Field, _ map[string]interface{}) (interface{}, error) {
+	switch f.Name {
+	case "query", "zzGhost", "zzOwner":
+		return o, nil
+	case "zzGhosts", "zzGrid":
+		if f.Name == "zzGrid" {
+			return []interface{}{[]interface{}{o}, []interface{}{}}, nil
+		}
+		return []interface{}{o, o}, nil
+	}
+	return "v-" + f.Name, nil
+}
+
+// c14GhostTypes: a refused document defines a type and uses it behind list / non-null wrappers; the corrected document
+// defines the type again (same name, same wrapper texts, one more field) and is accepted. Nothing of the refused
+// document's type objects may be reachable afterwards: the root prints, describes and answers exactly like a twin root
+// that only ever saw the accepted documents.
+func c14GhostTypes(c *run.Ctx) {
+	const base = "type Query { a: String }"
+	refused := []string{
+		"type ZzGhost { id: String zzOwner: ZzGhost }\nextend type Query { zzGhosts: [ZzGhost!] zzGhost: ZzGhost! zzGrid: [[ZzGhost!]!] }\ntype ZzEmpty { }",
+		"type ZzGhost { id: String }\nextend type Query { zzGhosts: [ZzGhost!] zzGhost: ZzGhost! zzGrid: [[ZzGhost!]!] }\ninterface ZzI { x: Int }\ntype ZzBad implements ZzI { y: Int }",
+		"type ZzGhost { id: String }\nextend type Query { zzGhosts: [ZzGhost!] zzGhost: ZzGhost! zzGrid: [[ZzGhost!]!] }\nextend type Query { a: Int }",
+		"type ZzGhost { id: String }\ninput ZzGhostIn { g: [ZzGhostIn!] }\nextend type Query { zzGhosts: [ZzGhost!] zzGhost(in: [ZzGhostIn!]): ZzGhost! zzGrid: [[ZzGhost!]!] }\nunion ZzBadU = Int",
+	}
+	const fixed = "type ZzGhost { id: String name: String zzOwner: ZzGhost }\nextend type Query { zzGhosts: [ZzGhost!] zzGhost: ZzGhost! zzGrid: [[ZzGhost!]!] }"
+	const req = `{ a zzGhosts { id name zzOwner { name } } zzGhost { name } zzGrid { name id } }`
+	observe := func(root *ggql.Root) string {
+		var out string
+		pv, _ := run.Protect(func() {
+			intro := root.ResolveString(c17FullQuery, "Full", map[string]interface{}{"dep": true})
+			out = root.SDL(false, true) + "\n" + ref.Render(ref.Canon(intro)) + "\n" + ref.Render(ref.Canon(root.ResolveString(req, "", nil)))
+		})
+		if pv != nil {
+			return fmt.Sprint("PANIC ", pv)
+		}
+		return out
+	}
+	for ri, bad := range refused {
+		for variant := 0; variant < 2; variant++ {
+			twin := ggql.NewRoot(&c14GObj{})
+			root := ggql.NewRoot(&c14GObj{})
+			_ = twin.ParseString(base)
+			_ = root.ParseString(base)
+			var berr error
+			run.Protect(func() { berr = root.ParseString(bad) })
+			if variant == 1 {
+				run.Protect(func() { _ = root.ParseString(bad) }) // refused twice
+			}
+			e1, e2 := twin.ParseString(fixed), root.ParseString(fixed)
+			c.Eval(fmt.Sprintf("ghost-types|%d|%d", ri, variant), true)
+			c.Bucket("failure_kind", "refused-document-whose-types-the-next-document-defines-again")
+			switch {
+			case berr == nil:
+				c.Count("ill_formed_document_accepted(left_to_C13)", 1)
+			case (e1 == nil) != (e2 == nil):
+				c.Violation("c14", map[string]interface{}{"diag": fmt.Sprintf("the corrected document: accepted by the twin = %v, by the root that refused the first version = %v (%v)", e1 == nil, e2 == nil, e2), "refused_document": bad, "corrected_document": fixed})
+			default:
+				if a, b := observe(twin), observe(root); a != b {
+					c.Violation("c14", map[string]interface{}{"diag": "after the corrected document the root differs from a twin that never saw the refused one: " + firstDiffLong(a, b), "refused_document": bad, "corrected_document": fixed, "request": req})
+				}
+			}
 		}
 	}
 }
